@@ -151,3 +151,23 @@ Qed.
 
 Example levels_example : levels OwnedIntoExisting true = [(OwnedIntoExisting, true); (OwnedIntoExisting, false); (OwnedInto, true); (OwnedInto, false)].
 Proof. reflexivity. Qed.
+
+(* ---- lifting to the generated impl: rendering reads the views only ---- *)
+Definition set_field_attrs (fld : field) (l : list member_attr) : field :=
+  {| f_attrs := with_attrs (f_attrs fld) l; f_idx := f_idx fld; f_member := f_member fld; f_member_str := f_member_str fld; f_ty := f_ty fld |}.
+
+Definition set_fields (s : struct_) (fs : list field) : struct_ :=
+  {| s_attrs := s_attrs s; s_ident := s_ident s; s_generics := s_generics s; s_fields := fs; s_named := s_named s; s_unit := s_unit s |}.
+
+(* inserting, anywhere among the instructions of any field of a struct, an instruction that is not
+   applicable to the conversion of impl context c leaves that impl token-identical *)
+Theorem impl_unchanged_by_inapplicable : forall s pre fld post l1 a l2 c,
+    applicable_somewhere a (c_kind c) (c_fallible c) (c_ty c) = false ->
+    expand_impl (DStruct (set_fields s (pre ++ set_field_attrs fld (l1 ++ a :: l2) :: post))) c
+    = expand_impl (DStruct (set_fields s (pre ++ set_field_attrs fld (l1 ++ l2) :: post))) c.
+Proof.
+  intros s pre fld post l1 a l2 c H. unfold expand_impl. f_equal. unfold view_type. cbn [dt_ident dt_generics dt_get_attrs set_fields s_attrs s_ident s_generics].
+  f_equal. f_equal. unfold view_struct. cbn [set_fields s_fields s_named s_unit s_attrs]. f_equal.
+  rewrite !map_app. cbn [map]. f_equal. f_equal.
+  exact (view_field_not_applicable fld l1 a l2 (c_kind c) (c_fallible c) (c_ty c) H).
+Qed.
